@@ -43,10 +43,9 @@ def instr(e, sets):
     raise Inexpressible("operation %s on the count is outside the model's straight-line language" % k)
 
 
-def prog(events, decide=True):
-    """events -> TLA+ sequence; the first rmw (else the first load) is the deciding event"""
-    idx = None
-    if decide:
+def prog(events, decide=True, idx=None):
+    """events -> TLA+ sequence; `idx` is the deciding event (default: the first rmw, else the first load)"""
+    if decide and idx is None:
         for i, e in enumerate(events):
             if e[0] == "rmw":
                 idx = i
@@ -67,6 +66,8 @@ def protocol(entries):
     """distinct protocol programs observed, plus a human-readable summary. Raises Inexpressible."""
     incs, decs, uniqs = {}, {}, {"get_mut": {}, "try_unwrap": {}, "make_mut": {}, "unwrap_or_clone": {}}
     problems = []
+    lastseqs = set()
+    pending = []
     by = {}
     for en in entries:
         by.setdefault((en["group"], en["name"]), {})[en["state"]] = en["events"]
@@ -96,7 +97,13 @@ def protocol(entries):
             rest = la[len(sh):]
             if not any(e[0] == "free" for e in rest):
                 problems.append("%s: the last owner does not free the block" % name)
-            decs.setdefault("<<%s, %s>>" % (prog(sh), prog(rest, decide=False)), []).append(name)
+            # the deciding event: the last one in the common prefix that saw different values in the two runs
+            didx = None
+            for i in range(len(sh)):
+                if sh[i][0] in ("rmw", "load") and sh[i][3] != la[i][3]:
+                    didx = i
+            decs.setdefault("<<%s, %s>>" % (prog(sh, idx=didx), prog(rest, decide=False)), []).append(name)
+            lastseqs.add(shape(la))
         elif g.startswith("uniq:"):
             api = g.split(":")[1]
             un = st["unique"]
@@ -110,6 +117,19 @@ def protocol(entries):
             if not up:
                 raise Inexpressible("%s decides uniqueness without reading the count" % name)
             uniqs[api].setdefault(prog(up), []).append(name)
+            if "shared_then_last" in st:
+                tail = st["shared_then_last"]
+                if any(e[0] == "cloneval" for e in tail):
+                    k = max(i for i, e in enumerate(tail) if e[0] == "cloneval")
+                    pending.append((name, [e for e in tail[k + 1:] if e[0] in ATOMIC + ("destroy", "free")]))
+    # the release a uniqueness-gated call performs when it turned out to be the last owner is one more
+    # "give up one owner" program of the model: TLC decides whether it is a safe one
+    for name, tail in pending:
+        i = next((k for k, e in enumerate(tail) if e[0] == "rmw"), None)
+        if i is None:
+            problems.append("%s: releases its handle without touching the count" % name)
+            continue
+        decs.setdefault("<<%s, %s>>" % (prog(tail[:i + 1]), prog(tail[i + 1:], decide=False)), []).append(name + " (last owner after the clone)")
     return incs, decs, uniqs, problems
 
 
@@ -133,7 +153,8 @@ def mm_cfg(ops, nt, maxops, maxinit, handoff):
         "  Handoff = %s" % ("TRUE" if handoff else "FALSE"),
         "  Ops = %s" % tla_set(ops),
         "  IncProgs <- c_Inc", "  DecProgs <- c_Dec", "  UniqProgs <- c_Uq",
-        "INVARIANT Safety", "CHECK_DEADLOCK FALSE", ""])
+        "INVARIANT NoErr", "INVARIANT AtMostOnce", "INVARIANT FreedOnlyWhenNoHandles", "INVARIANT ExactlyOnce",
+        "INVARIANT CountIsHandles", "CHECK_DEADLOCK FALSE", ""])
 
 
 def tlc_trace(out):
@@ -162,7 +183,14 @@ def mm_stage(prop, tier, name, configs, workers=12):
         res["violations"].append({"stage": name, "key": "crash-in-extraction",
                                   "errors": ["[crash] %s" % e]})
         return res
-    incs, decs, uniqs, problems = protocol(entries)
+    try:
+        incs, decs, uniqs, problems = protocol(entries)
+    except Inexpressible as e:
+        # the exhaustive stage cannot express this protocol shape: not a verdict. The recorded-trace stage
+        # still judges the real executions; if it finds nothing the check ends with exit 2.
+        res["tool_error"] = "protocol outside ArcMM's straight-line language: %s" % e
+        res["exhaustive"] = False
+        return res
     res["detail"]["protocol"] = {"inc": incs, "dec": decs, "uniq": uniqs}
     res["detail"]["entry_points"] = len(entries)
     for p in problems:
@@ -183,9 +211,15 @@ def mm_stage(prop, tier, name, configs, workers=12):
         if st["ok"]:
             continue
         txt = open(out, errors="replace").read()
-        if "Invariant Safety is violated" in txt:
+        minv = re.search(r"Invariant (\w+) is violated", txt)
+        if minv:
             tr = tlc_trace(out)
             e = last_err(tr)
+            if e == "none":
+                e = {"ExactlyOnce": "every handle is gone and every thread is done, but the value was not destroyed / moved out exactly once or the memory not released",
+                     "AtMostOnce": "the value is destroyed or moved out more than once",
+                     "FreedOnlyWhenNoHandles": "the memory is released while a handle still exists",
+                     "CountIsHandles": "with no call in flight the count differs from the number of handles"}.get(minv.group(1), minv.group(1))
             res["violations"].append({
                 "stage": name, "config": cname, "ops": ops, "nt": nt, "maxops": maxops, "maxinit": maxinit, "handoff": handoff,
                 "key": "schedule:%s:%s" % (cname, e),
@@ -198,6 +232,10 @@ def mm_stage(prop, tier, name, configs, workers=12):
 
 
 def replay_mm(prop, v):
+    if "trace" in v and os.path.exists(v["trace"]):
+        # the recorded execution itself is the counterexample: judge the stored trace again
+        st, viol = judge_trace(workdir(prop), v["trace"], "replay_trace")
+        return [] if viol is None else ["[tlc] " + e for e in viol["errors"]]
     if "ops" not in v:
         return ["[tlc] " + e for e in v.get("errors", [])]
     r = mm_stage(prop, "quick", "replay", [(v["config"], v["ops"], v["nt"], v["maxops"], v["maxinit"], v["handoff"])])
@@ -205,3 +243,85 @@ def replay_mm(prop, v):
     for x in r["violations"]:
         errs += ["[tlc] " + e for e in x["errors"]]
     return errs
+
+
+# ------------------------------------------------------------------ implementation -> specification
+
+TRACE_CFG = "\n".join([
+    "SPECIFICATION TraceSpec", "CONSTANTS", "  NT = 5", "  MaxOps = 0", "  MaxInit = 0", "  Handoff = FALSE", "  Ops = {}",
+    "  IncProgs <- c_E", "  DecProgs <- c_E", "  UniqProgs <- c_U",
+    "INVARIANT NoErr", "INVARIANT AtMostOnce", "INVARIANT FreedOnlyWhenNoHandles", "INVARIANT CountIsHandles",
+    "INVARIANT TraceEnd", "POSTCONDITION TraceAccepted", "CHECK_DEADLOCK FALSE", ""])
+MC_TRACE = "---- MODULE MC_Trace ----\nEXTENDS ArcMMTrace\nc_E == {}\nc_U == [a \\in UniqApis |-> {}]\n====\n"
+TRACE_JAVA = ["-Xmx4g", "-Xss1g", "-Dtlc2.tool.queue.IStateQueue=StateDeque"]
+
+
+def judge_trace(wd, nd, name):
+    """TLC judges one NDJSON file of recorded runs; returns (stats, None) or (stats, violation dict without replay info)"""
+    stage_spec(wd, ["ArcMM.tla", "ArcMMTrace.tla"])
+    with open(os.path.join(wd, "MC_Trace.tla"), "w") as f:
+        f.write(MC_TRACE)
+    out, st = run_tlc(wd, "MC_Trace.tla", TRACE_CFG, name, workers=1, timeout=3000, java_opts=TRACE_JAVA, env={"TRACE": nd})
+    txt = open(out, errors="replace").read()
+    if st["ok"] and "TRACE-REJECTED" not in txt:
+        return st, None
+    if "is violated" in txt:
+        tr = tlc_trace(out)
+        e = last_err(tr)
+        inv = re.search(r"Invariant (\w+) is violated", txt)
+        iname = inv.group(1) if inv else "?"
+        return st, {"key": "trace-violates:%s:%s" % (iname, e),
+                    "errors": ["[schedule] a recorded concurrent execution violates %s under the memory model: %s" % (iname, e)],
+                    "tlc_counterexample": tr[-6000:]}
+    if "TRACE-REJECTED" in txt:
+        m = re.search(r"TRACE-REJECTED at event\", (\d+), (.*?)>>", txt, re.S)
+        what = "event %s %s" % (m.group(1), " ".join(m.group(2).split())) if m else "?"
+        ek = re.search(r'e \|-> "(\w+)"', m.group(2)).group(1) if m and re.search(r'e \|-> "(\w+)"', m.group(2)) else "?"
+        return st, {"key": "trace-rejected:" + ek,
+                    "errors": ["[schedule] a recorded concurrent execution is not a behaviour of the specification: the model cannot follow %s" % what]}
+    raise ToolError("TLC failed on the recorded trace: %s (see %s)" % (st["error"], out))
+
+
+def trace_stage(prop, tier, name, seed, runs, nops):
+    """record real concurrent executions (2-4 threads + a lending main thread, mixed handle kinds, seeded programs,
+    two thirds under a seeded cooperative scheduler) and let TLC judge them against ArcMMTrace: count arithmetic,
+    happens-before races recomputed from the logged orderings, ArcMM's safety invariants at every event, clean end"""
+    wd = workdir(prop)
+    exe = build_harness("a")
+    res = {"name": name, "states": 0, "transitions": 0, "evaluations": 0, "nontrivial": 0, "traces": 0, "samples": [],
+           "violations": [], "notes": [], "exhaustive": False, "detail": {}}
+    batches = max(1, runs // 100)
+    per = runs // batches
+    for bi in range(batches):
+        s0 = seed * 100003 + bi * per
+        nd = os.path.join(wd, "%s_%d.ndjson" % (name, bi))
+        if os.path.exists(nd):
+            os.remove(nd)
+        r = subprocess.run([exe, "threads", str(s0), str(per), str(nops), nd], cwd=wd, stdout=subprocess.PIPE, stderr=subprocess.STDOUT,
+                           text=True, timeout=1800)
+        if r.returncode != 0:
+            if r.returncode == 2:
+                raise ToolError("threaded runner failed: %s" % r.stdout[-300:])
+            res["violations"].append({"stage": name, "key": "crash-in-threads",
+                                      "errors": ["[crash] the process died (exit %s) during concurrent runs starting at seed %d: %s" % (r.returncode, s0, r.stdout[-200:])],
+                                      "seed": s0, "runs": per, "nops": nops})
+            continue
+        nlines = sum(1 for _ in open(nd))
+        st, v = judge_trace(wd, nd, "%s_%d" % (name, bi))
+        res["states"] += st["distinct"]
+        res["transitions"] += st["generated"]
+        res["evaluations"] += nlines
+        res["traces"] += per
+        res["nontrivial"] += per
+        res.setdefault("tlc", st)
+        if v is None:
+            if bi == 0:
+                res["samples"] = [[json.loads(l) for l in open(nd).read().splitlines()[:14]]]
+            continue
+        keep = next_replay_path(prop, tier, name + "-trace").replace(".json", ".ndjson")
+        shutil.copy(nd, keep)
+        v.update({"stage": name, "trace": keep, "seed": s0, "runs": per, "nops": nops})
+        res["violations"].append(v)
+    res["rule"] = ("each trace = one recorded run of 2-4 OS threads x seeded random programs over Arc/OffsetArc/ArcUnion handles to one value; "
+                   "distinct by seed; every event of every run is validated by TLC")
+    return res
